@@ -268,6 +268,8 @@ def run(model, tier):
         # placed with u -+ a of ONE state (a fan placed with the sound speed of another state is not a simple wave)
         from . import c04, c09
         c04.fans(model, part, only_pde=True)
+        from . import c04_geneos
+        c04_geneos.fans(model, part, prop=PROP, rule='C01.pde')
         c09.side_consistency(model, part, prop=PROP, rule='C01.side-consistency',
                              callees=('sound_speed', 'rho_p_u_rarefaction', 'rho_star_rarefaction', 'rarefaction'), min_calls=8,
                              why='the fan is then not a centred simple wave of its own state and violates the Euler equations')
